@@ -427,7 +427,7 @@ def _custom_builder(Builder):
     return SearchPathBuilder
 
 
-def _child(files, calls, fs_faults, pre_calls, entry='builder'):
+def _child(files, calls, fs_faults, pre_calls, entry='builder', mid_build=None):
     from awesomeyaml import Builder, Config, errors
     import io
     import pathlib
@@ -470,7 +470,10 @@ def _child(files, calls, fs_faults, pre_calls, entry='builder'):
                     out['pre'].append(type(e).__name__)
                 out['pre_current_file'] = b.get_current_file()
                 out['pre_stages'] = len(b.stages)
-            for c in calls:
+            for ci, c in enumerate(calls):
+                if mid_build is not None and ci == mid_build:
+                    b.build()         # the builder is used incrementally: what was added so far is built, then more is added
+                    out['mid_build'] = ci
                 add(b, c)
             stage = 'build'
             root = b.build()
@@ -504,9 +507,9 @@ class _Done(Exception):
     pass
 
 
-def _run(mat, fs_faults=(), pre_calls=(), drop=(), entry='builder'):
+def _run(mat, fs_faults=(), pre_calls=(), drop=(), entry='builder', mid_build=None):
     files = {k: v for k, v in mat['files'].items() if k not in drop}
-    c = core.fork_call(_child, (files, mat['calls'], list(fs_faults), list(pre_calls), entry), timeout=40)
+    c = core.fork_call(_child, (files, mat['calls'], list(fs_faults), list(pre_calls), entry, mid_build), timeout=40)
     if c['status'] != 'ok':
         raise core.HarnessError(f'{c["status"]}: {c.get("error", c.get("signal", ""))}')
     return c['value']
@@ -581,10 +584,14 @@ def execute(sc):
                 break
             mat = materialise(sc, plan)
             mats.append(mat)
-            obs = _run(mat)
+            # a third of the multi-source plans use the builder incrementally: build() after some of the sources, then the rest
+            mid = (1 + plan[0]['seed'] % (len(mat['calls']) - 1)) if len(mat['calls']) >= 2 and plan[0]['seed'] % 3 == 0 else None
+            obs = _run(mat, mid_build=mid)
             st['runs'] += 1
             st['lines'] += obs['lines']
-            label = f'plan#{pi} ' + '+'.join(d['kind'] for d in plan)
+            label = f'plan#{pi} ' + '+'.join(d['kind'] for d in plan) + (f' (build() also called after source {mid})' if mid is not None else '')
+            if mid is not None:
+                count(probes, 'builder_used_incrementally')
             kinds = {d['kind'] for d in plan}
             for kd in kinds:
                 count(probes, 'delivery:' + kd)
